@@ -669,16 +669,17 @@ fn encode_genotype_str(genotype: &str) -> io::Result<Vec<i8>> {
     }
 
     fn encode(s: &str, phasing: &str) -> io::Result<i8> {
-        if s == MISSING_ALLELE {
-            return Ok(0);
-        }
+        // A missing allele is encoded as if its position is -1. It keeps its phasing.
+        let j: i8 = if s == MISSING_ALLELE {
+            -1
+        } else {
+            s.parse()
+                .map_err(|e| io::Error::new(io::ErrorKind::InvalidInput, e))?
+        };
 
-        let j: i8 = s
-            .parse()
-            .map_err(|e| io::Error::new(io::ErrorKind::InvalidInput, e))?;
         let is_phased = phasing == "|";
 
-        let mut i = (j + 1) << 1;
+        let mut i = encode_allele_position(j)?;
 
         if is_phased {
             i |= 0x01;
@@ -704,15 +705,23 @@ fn encode_genotype_str(genotype: &str) -> io::Result<Vec<i8>> {
     Ok(values)
 }
 
+// § 6.3.3 "Type encoding" (2024-10-09): `(allele + 1) << 1`. The result must fit in an `i8`.
+fn encode_allele_position(i: i8) -> io::Result<i8> {
+    i.checked_add(1)
+        .and_then(|n| n.checked_mul(2))
+        .ok_or_else(|| io::Error::new(io::ErrorKind::InvalidInput, "invalid allele position"))
+}
+
 fn encode_genotype(genotype: &dyn Genotype) -> io::Result<Vec<i8>> {
     fn encode(position: Option<usize>, phasing: Phasing) -> io::Result<i8> {
+        // A missing allele is encoded as if its position is -1. It keeps its phasing.
         let i = if let Some(position) = position {
             i8::try_from(position).map_err(|e| io::Error::new(io::ErrorKind::InvalidData, e))?
         } else {
-            return Ok(0);
+            -1
         };
 
-        let mut n = (i + 1) << 1;
+        let mut n = encode_allele_position(i)?;
 
         if phasing == Phasing::Phased {
             n |= 0x01;
